@@ -84,6 +84,7 @@ func newWriter(buf buffer.Buffer, release bool) *writer {
 
 func acquireWriter(buf buffer.Buffer) *writer {
 	w := writerPool.New()
+	vpoolGetWriter(w)
 	w.Reset(buf)
 	w.releaseWriter = true
 	return w
@@ -108,6 +109,7 @@ func (w *writer) Reset(buf buffer.Buffer) {
 	s := w.writerState
 	if s == nil {
 		s = acquireWriterState()
+		vpoolGetState(s)
 	}
 
 	s.init(buf)
@@ -638,6 +640,7 @@ func (w *writer) failf(format string, args ...any) error {
 func (w *writer) free() {
 	if w.releaseWriter {
 		w.reset()
+		vpoolPutWriter(w)
 		writerPool.Put(w)
 		return
 	}
@@ -667,6 +670,7 @@ func (w *writer) reset() {
 var writerPool = pools.NewPoolFunc(
 	func() *writer {
 		s := acquireWriterState()
+		vpoolGetState(s)
 		return &writer{writerState: s}
 	},
 )
